@@ -10,6 +10,12 @@ fn main() {
         vx::proc::apply_limits_from_env();
         std::process::exit(props::worker_main(&argv[2..]));
     }
+    // glibc otherwise returns every large freed block (e.g. a zlib compressor state) to the
+    // kernel and re-faults it on the next case; on 16 threads that dominates run time.
+    unsafe {
+        libc::mallopt(libc::M_MMAP_THRESHOLD, 32 << 20);
+        libc::mallopt(libc::M_TRIM_THRESHOLD, 512 << 20);
+    }
     vx::install_panic_hook();
     let cli = vx::parse_cli();
     let (built, run) = match cli.id.as_str() {
